@@ -45,6 +45,53 @@ def printWrites (line ofs ors : Bytes) (args : List Bytes) : List Bytes :=
 def printBytes (crlf : Bool) (line ofs ors : Bytes) (args : List Bytes) : Bytes :=
   xfWrites crlf (printWrites line ofs ors args)
 
+/-! ### CSV / TSV output mode (`interp/io.go` printArgs, writeCSV; `encoding/csv` Writer.Write)
+
+In OUTPUTMODE csv / tsv a `print` WITH arguments writes one record through `csv.Writer`: the fields joined by the separator and
+ended by LF (CR LF when the newline mode is CRLF); a field is quoted when it contains the separator, a double quote, CR or LF,
+starts with white space, or is `\.`; inside quotes `"` is doubled (CRLF mode: LF goes out as CR LF, CR is dropped); the record
+of one empty field is `""`. The record goes to the writer as encoded (no `writeOutput`); OFS and ORS play no part; a bare `print`
+and `printf` are not affected. -/
+
+/-- does `p` occur in `s` (as a substring)? -/
+def hasSub (p : Bytes) : Bytes → Bool
+  | [] => p.isEmpty
+  | c :: r => p.isPrefixOf (c :: r) || hasSub p r
+
+/-- Unicode White_Space (what `unicode.IsSpace` accepts), as UTF-8 -/
+def spaces : List Bytes :=
+  [[9], [10], [11], [12], [13], [32], [0xC2, 0x85], [0xC2, 0xA0], [0xE1, 0x9A, 0x80],
+   [0xE2, 0x80, 0x80], [0xE2, 0x80, 0x81], [0xE2, 0x80, 0x82], [0xE2, 0x80, 0x83], [0xE2, 0x80, 0x84], [0xE2, 0x80, 0x85],
+   [0xE2, 0x80, 0x86], [0xE2, 0x80, 0x87], [0xE2, 0x80, 0x88], [0xE2, 0x80, 0x89], [0xE2, 0x80, 0x8A],
+   [0xE2, 0x80, 0xA8], [0xE2, 0x80, 0xA9], [0xE2, 0x80, 0xAF], [0xE2, 0x81, 0x9F], [0xE3, 0x80, 0x80]]
+
+/-- `fieldNeedsQuotes` -/
+def csvNeedsQuotes (sep f : Bytes) : Bool :=
+  if f.isEmpty then false
+  else f == [92, 46] || hasSub sep f || f.any (fun c => c == 34 || c == 13 || c == 10) || spaces.any (fun p => p.isPrefixOf f)
+
+/-- the inside of a quoted field -/
+def csvQuoteBody (crlf : Bool) : Bytes → Bytes
+  | [] => []
+  | c :: r =>
+    (if c = 34 then [34, 34] else if c = 13 then (if crlf then [] else [13]) else if c = 10 then (if crlf then [13, 10] else [10])
+     else [c]) ++ csvQuoteBody crlf r
+
+def csvField (sep : Bytes) (crlf : Bool) (f : Bytes) : Bytes :=
+  if csvNeedsQuotes sep f then 34 :: (csvQuoteBody crlf f ++ [34]) else f
+
+def csvJoin (sep : Bytes) : List Bytes → Bytes
+  | [] => []
+  | [a] => a
+  | a :: b :: rest => a ++ sep ++ csvJoin sep (b :: rest)
+
+def csvEol (crlf : Bool) : Bytes := if crlf then [13, 10] else [10]
+
+/-- what `writeCSV` hands to the writer for one record -/
+def csvRecord (sep : Bytes) (crlf : Bool) (fields : List Bytes) : Bytes :=
+  if fields == [[]] then [34, 34] ++ csvEol crlf
+  else csvJoin sep (fields.map (csvField sep crlf)) ++ csvEol crlf
+
 /-! ### statements: what the program says, lowered to the operations of the output model -/
 
 /-- the interpreter state a `print` depends on -/
@@ -53,15 +100,23 @@ structure Fmt where
   line : Bytes     -- `$0`
   ofs : Bytes
   ors : Bytes
+  csv : Option Bytes := none    -- OUTPUTMODE: `none` = default, `some sep` = csv / tsv with this separator (UTF-8)
 deriving Repr
 
-/-- initial state inside BEGIN: `$0 = ""`, `OFS = " "`, `ORS = "\n"` -/
+/-- initial state inside BEGIN: `$0 = ""`, `OFS = " "`, `ORS = "\n"`, default output mode -/
 def Fmt.init (crlf : Bool) : Fmt := { crlf, line := [], ofs := [32], ors := [10] }
+
+/-- what a destination receives for `print args` (args may be empty) in the state `f` -/
+def printStmtBytes (f : Fmt) (args : List Bytes) : Bytes :=
+  match f.csv with
+  | some sep => if args.isEmpty then printBytes f.crlf f.line f.ofs f.ors args else csvRecord sep f.crlf args
+  | none => printBytes f.crlf f.line f.ofs f.ors args
 
 inductive Stmt
   | setOFS (v : Bytes)
   | setORS (v : Bytes)
   | setRec (v : Bytes)
+  | setOM (sep : Option Bytes)                                 -- `OUTPUTMODE = …` (also: the mode the run starts in)
   | print (dest : Option (Redir × Name)) (args : List Bytes)   -- `print a, b [> n]`
   | printf (dest : Option (Redir × Name)) (s : Bytes)          -- `printf fmt, … [> n]`; s = the formatted string: ONE write
   | other (op : Op)
@@ -78,7 +133,8 @@ def lower : Fmt → List Stmt → List Op
   | f, .setOFS v :: rest => lower { f with ofs := v } rest
   | f, .setORS v :: rest => lower { f with ors := v } rest
   | f, .setRec v :: rest => lower { f with line := v } rest
-  | f, .print d args :: rest => emit d (printBytes f.crlf f.line f.ofs f.ors args) :: lower f rest
+  | f, .setOM m :: rest => lower { f with csv := m } rest
+  | f, .print d args :: rest => emit d (printStmtBytes f args) :: lower f rest
   | f, .printf d s :: rest => emit d (xfWrite f.crlf s) :: lower f rest
   | f, .other op :: rest => op :: lower f rest
 
